@@ -1035,7 +1035,11 @@ impl Entity {
                 }
             }
         }
-        for field in new_entity.fields {
+        // the parser numbered the fields of the new definition in declaration order: insert the
+        // new ones in that order, not in the iteration order of the map
+        let mut new_fields: Vec<(String, Field)> = new_entity.fields.into_iter().collect();
+        new_fields.sort_by_key(|f| f.1.short_name.parse::<usize>().unwrap_or(usize::MAX));
+        for field in new_fields {
             if !field.1.nullable && field.1.default_value.is_none() {
                 match field.1.field_type {
                     FieldType::Array(_) | FieldType::Entity(_) => {}
